@@ -949,3 +949,124 @@ func VerifC20Stash(n0, f1, f2, clr, f3 int) {
 	vrt.Reach("restarted")
 	vrt.Assert(class == 0, "a stash operation panicked")
 }
+
+// ---- settings across several sessions ------------------------------------------
+
+// zzC20Num: a fixnum-or-nil setting as (value, is nil, well typed).
+func zzC20Num(name string) (int64, bool, bool) {
+	switch t := slip.UserPkg.JustGet(name).(type) {
+	case nil:
+		return 0, true, true
+	case slip.Fixnum:
+		return int64(t), false, true
+	}
+	return 0, false, false
+}
+
+// zzC20NewProcess: what a fresh process knows: nothing modified yet, no config
+// file in use, the two variables at other values than any session sets.
+func zzC20NewProcess(a, b string) int {
+	configFilename = ""
+	c := zzC20Try(func() {
+		zzC20Setq(a, nil)
+		zzC20Setq(b, nil)
+	})
+	modifiedVars = map[string]bool{}
+	return c
+}
+
+// zzC20Assigns: does the text of config.lisp hold (setq name <fixnum v>)?
+func zzC20Assigns(buf []byte, name string, v int64) (found bool, class int) {
+	class = zzC20Try(func() {
+		for _, form := range slip.Read(buf, &scope) {
+			if l, ok := form.(slip.List); ok && len(l) == 3 {
+				if sym, ok := l[1].(slip.Symbol); ok && string(sym) == name {
+					if num, ok := l[2].(slip.Fixnum); ok && int64(num) == v {
+						found = true
+					}
+				}
+			}
+		}
+	})
+	return
+}
+
+// VerifC20Sessions: three starts of the REPL through the real start-up code
+// (SetConfigDir: MkdirAll, ReadFile config.lisp, read + evaluate it with the
+// set hook installed and writing switched off, ReadFile custom.lisp).
+//
+//	session 1: (setq X x)              -> config.lisp written
+//	session 2: start, (setq Y y)       -> config.lisp rewritten: must still assign X
+//	session 3: start                   -> X == x and Y == y
+//
+// X, Y = *print-right-margin*, *print-length* (swapped when swap != 0); x and y
+// are symbolic fixnums in lo..hi (sym != 0: printed by the real strconv code,
+// read back by the real reader; the engine forks on the digit counts) or
+// enumerated over lo..hi by vrt.Choice (sym == 0, cheap).  same != 0: session 2
+// sets X again (to y) instead of a different variable.
+func VerifC20Sessions(lo, hi, swap, same, sym int) {
+	dir := zzC20Dir()
+	cfg := dir + "/config.lisp"
+	vx, vy := "*print-right-margin*", "*print-length*"
+	if swap != 0 {
+		vx, vy = vy, vx
+	}
+	if same != 0 {
+		vy = vx
+	}
+	var x, y int64
+	if sym != 0 {
+		x, y = vrt.Int64("x"), vrt.Int64("y")
+		vrt.Assume(int64(lo) <= x && x <= int64(hi) && int64(lo) <= y && y <= int64(hi))
+	} else {
+		x = int64(lo + vrt.Choice("x", hi-lo+1))
+		y = int64(lo + vrt.Choice("y", hi-lo+1))
+	}
+	// session 1
+	c0 := zzC20NewProcess(vx, vy)
+	c1 := zzC20Try(func() {
+		SetConfigDir(dir)
+		zzC20Setq(vx, slip.Fixnum(x))
+	})
+	buf1, err1 := os.ReadFile(cfg)
+	has1, r1 := zzC20Assigns(buf1, vx, x)
+	// session 2
+	if zzC20NewProcess(vx, vy) != 0 {
+		c0 = 2
+	}
+	var gx2 int64
+	var nil2, ok2 bool
+	c2 := zzC20Try(func() {
+		SetConfigDir(dir)
+		gx2, nil2, ok2 = zzC20Num(vx)
+		zzC20Setq(vy, slip.Fixnum(y))
+	})
+	buf2, err2 := os.ReadFile(cfg)
+	wantX := x
+	if same != 0 {
+		wantX = y
+	}
+	hasX, r2 := zzC20Assigns(buf2, vx, wantX)
+	hasY, r3 := zzC20Assigns(buf2, vy, y)
+	// session 3
+	if zzC20NewProcess(vx, vy) != 0 {
+		c0 = 2
+	}
+	c3 := zzC20Try(func() { SetConfigDir(dir) })
+	gx3, nilx3, okx3 := zzC20Num(vx)
+	gy3, nily3, oky3 := zzC20Num(vy)
+	vrt.Note("sessions", len(buf1), len(buf2), has1, hasX, hasY, gx2, gx3, gy3)
+	zzC20Cleanup(dir)
+	vrt.Reach("third-start")
+	vrt.Assert(c0 == 0, "resetting the variables panicked")
+	vrt.Assert(c1 == 0 && err1 == nil && r1 == 0, "session 1: start-up or the setting change failed, or config.lisp is unreadable")
+	vrt.Assert(has1, "session 1: config.lisp does not assign the changed variable")
+	vrt.Assert(c2 == 0, "session 2: start-up from config.lisp or the setting change panicked")
+	vrt.Assert(ok2 && !nil2 && gx2 == x, "session 2: the setting saved by session 1 is not restored at start-up")
+	vrt.Assert(err2 == nil && r2 == 0 && r3 == 0, "session 2: config.lisp is unreadable after the change")
+	vrt.Assert(hasY, "session 2: config.lisp does not assign the variable changed in this session")
+	vrt.Assert(hasX, "session 2: config.lisp no longer assigns the variable restored from it at start-up")
+	vrt.Assert(c3 == 0, "session 3: start-up from config.lisp panicked")
+	vrt.Assert(okx3 && !nilx3 && gx3 == wantX, "session 3: the setting of session 1 is lost")
+	vrt.Assert(oky3 && !nily3 && gy3 == y, "session 3: the setting of session 2 is lost")
+}
